@@ -99,6 +99,12 @@ def build_traces(path, tier, seed):
         if i % 4 == 1:
             x = x + (2.0 + 3.0 * float(np.max(np.abs(x)))) * (-1 if i % 8 == 1 else 1)     # one-signed record: 0 is outside its range
             shape += "+offset"
+        if i % 7 == 4:
+            # whole-number counts held in an integer type: the interpolated samples in between are fractional
+            dtc = [np.int64, np.int16, np.int32, np.int8, np.uint8][int(rng.integers(5))]
+            top = float(min(np.iinfo(dtc).max, 30000))
+            x = np.round((np.abs(x) if dtc is np.uint8 else x) / (float(np.max(np.abs(x))) + 1e-300) * top).astype(dtc)
+            shape += " (%s counts)" % np.dtype(dtc).name
         even = bool(i % 3 == 0)
         raised, ndt, y, ondt, same = False, 0.0, [], 0.0, False
         try:
@@ -176,13 +182,21 @@ def build_traces(path, tier, seed):
             a_s.append(float(rng.uniform(0.3, 1.0)))
             b_s.append(0.0)
         c0 = float(rng.uniform(-1, 1))
+        count_dtype = None
+        if mode in (0, 2) and (i % 5 == 3 or rng.integers(6) == 0):
+            # a record of whole-number counts held in an integer type that is still exactly band limited: a whole-number mean
+            # plus the quarter-rate harmonic (+a, +b, -a, -b, ...) with whole-number amplitudes, length a multiple of 4
+            n = 4 * max(2, n // 4)
+            ks, a_s, b_s = [n // 4], [float(rng.integers(-900, 900))], [float(rng.integers(-900, 900))]
+            c0 = float(rng.integers(-300, 300))
+            count_dtype = [np.int64, np.int32, np.int16][int(rng.integers(3))]
         tt = np.arange(n) * dt
         x = c0 + sum(a * np.cos(2 * np.pi * k * tt / (n * dt)) + b * np.sin(2 * np.pi * k * tt / (n * dt)) for k, a, b in zip(ks, a_s, b_s)) if ks else np.full(n, c0)
         raised, ndt, y = False, 0.0, []
         try:
             with warnings.catch_warnings():
                 warnings.simplefilter("ignore")
-                oin = eqsig.AccSignal(np.asarray(x, dtype=float), dt)
+                oin = eqsig.AccSignal(np.asarray(x, dtype=float) if count_dtype is None else np.round(x).astype(count_dtype), dt)
                 o = tp.resample_to_approx_dt(oin, target, even=gen.flag(rng, even))
                 if i % 2:            # history: the SAME input object is resampled again; the second result is the one validated
                     o = tp.resample_to_approx_dt(oin, target, even=gen.flag(rng, even))
@@ -192,7 +206,8 @@ def build_traces(path, tier, seed):
         tid += 1
         recs.append({"tid": tid, "kind": "fourier", "dt": enc(dt), "target": enc(target), "even": even, "n": n, "raised": raised, "ndt": enc(ndt),
                      "y": enc_seq(y), "c0": enc(c0), "ks": ks, "as": enc_seq(a_s), "bs": enc_seq(b_s)})
-        meta[tid] = {"kind": "fourier", "n": n, "dt": dt, "target": target, "even": even, "harmonics": ks, "new_dt": float(ndt), "new_n": len(y), "raised": raised}
+        meta[tid] = {"kind": "fourier", "n": n, "dt": dt, "target": target, "even": even, "harmonics": ks, "new_dt": float(ndt), "new_n": len(y), "raised": raised,
+                     "record dtype": "float64" if count_dtype is None else np.dtype(count_dtype).name}
     write_ndjson(path, recs)
     return meta
 
